@@ -257,7 +257,7 @@ def _life(rng, rec, work, seed, idx):
     if flags["same_scale"]:
         hit("same_scale_other_nf", flags["same_scale"])
 
-    def verify(stage):
+    def verify(stage, path=path):
         """Re-read the archive and compare everything with the model's persisted copy."""
         want = model.persisted
         try:
@@ -308,6 +308,21 @@ def _life(rng, rec, work, seed, idx):
         rec["nontrivial"] = bool(keys)
         rec["sample"] = dict(desc, stage="read failed")
         return
+
+    # ---------------- a deep copy is another way of writing the same content
+    if rng.random() < 0.25:
+        copy_path = work / "copy.tar"
+        try:
+            with EKO.read(path) as e:
+                if model.persisted and rng.random() < 0.5:
+                    _ = e[list(model.persisted)[0]]
+                e.deepcopy(copy_path)
+            hit("deepcopies")
+        except Exception as ex:
+            fail(classify_exc(ex, "deepcopy"), f"deepcopy raised {type(ex).__name__}: {str(ex)[:300]}", **desc)
+        else:
+            verify("deepcopy", copy_path)
+            verify("after-deepcopy")
 
     # ---------------- edit sessions
     nedit = int(rng.integers(0, 3))
